@@ -34,14 +34,14 @@ func (c17) Rule() string {
 		"Oracle: WriteSeq returns no error; the bytes written for each record are '>'+desc+LF followed by the residues in lines of exactly 70 columns (last line shorter), each ended by one LF (zero residues: empty line or nothing; exact multiple of 70: an extra blank line is tolerated); reading the LF text and the CRLF twin yields exactly k records, in order, each with the same description and the same residues when looked at after the whole stream was scanned, and Err()==nil; for GenBank inputs desc == Version + [':'(head+1)'-'tail] + ' ' + Definition and residues == the record's residues. " +
 		"Outside the quantifier and never generated: descriptions/versions/definitions containing LF or CR, residues containing '>' or white space, wrap-around slices. " +
 		"CLI layer: gts clear|reverse|complement|select gene|sort -F fasta --no-cache on streams of 1..3 generated GenBank records (lengths on the 70-column boundaries; CONTIG-only records for clear): the text is one FASTA record per input record with description VERSION+' '+DEFINITION and the residues the command implies in the exact layout, and fed back through gts clear -F fasta reads back the same; with -o name.{gb,genbank,fasta,txt,} the file holds the same bytes; for the other record-writing subcommands (delete, extract, rotate, split, insert, define, search, join, select, pick, sort) -F fasta prints well-formed FASTA, -F genbank prints GenBank, and -o writes exactly what stdout would get, whatever the extension; every third case also with the cache on. " +
-		"non-trivial: the stream has >= 2 records or a record longer than one line (n > 70); distinct: canonical case text (kinds, descriptions, lengths, residue generator parameters, writer). A third of the genbank / genbank-region values are the reader's value of the record's own flat-file text: LF, CRLF, and with secondary accessions in front of REGION. gts define / search / select -F fasta leave the residues of every record alone (spacer records of n/s/w among them)."
+		"non-trivial: the stream has >= 2 records or a record longer than one line (n > 70); distinct: canonical case text (kinds, descriptions, lengths, residue generator parameters, writer). A third of the genbank / genbank-region values are the reader's value of the record's own flat-file text: LF, CRLF, and with secondary accessions in front of REGION. gts define / search / select -F fasta leave the residues of every record alone (spacer records of n/s/w among them). The LF and CRLF texts are also read without their final line terminator."
 }
 
 func (c17) RequiredBuckets(tier string) []string {
 	return []string{
 		"len%70=0", "len%70=1", "len%70=69", "len=0", "len>70",
 		"k=1", "k=2", "k=3", "k=4", "k=5",
-		"LF", "CRLF",
+		"LF", "CRLF", "no-final-line-terminator",
 		"desc:empty", "desc:has-gt", "desc:has-space", "desc:has-tab",
 		"genbank:plain", "genbank:region", "genbank:slice", "genbank:slice-negative-index",
 		"kind:fasta", "kind:fasta-ptr", "kind:basic-string", "kind:basic-stringer",
@@ -671,6 +671,15 @@ func (m c17) check(c *fw.Ctx, recs []c17rec, writer string) {
 	m.compare(c, enc, "LF", text, wantD, wantR, nil)
 	c.Bucket("CRLF")
 	m.compare(c, enc, "CRLF", strings.ReplaceAll(text, "\n", "\r\n"), wantD, wantR, devR)
+	// files whose last line has no line terminator.
+	if len(wantR[k-1]) > 0 && len(wantR[k-1])%70 != 0 && strings.HasSuffix(text, "\n") && !strings.HasSuffix(text, "\n\n") {
+		c.Bucket("no-final-line-terminator")
+		cut := strings.TrimSuffix(text, "\n")
+		m.compare(c, enc+" (the text without its final line terminator)", "LF", cut, wantD, wantR, nil)
+		devCut := append([][]byte(nil), devR...)
+		devCut[k-1] = bytes.TrimSuffix(devR[k-1], []byte("\r"))
+		m.compare(c, enc+" (the CRLF text without its final line terminator)", "CRLF", strings.ReplaceAll(cut, "\n", "\r\n"), wantD, wantR, devCut)
+	}
 }
 
 func c17allPlain(recs []c17rec) bool {
